@@ -33,7 +33,7 @@ CHECKS = {
  "C09": ("round-trip testing disassemble -> assemble -> disassemble on generated accepted encodings, behavioural equivalence on a generated state, idempotence; listings on reused assemblers (also after rejected programs), linear sweeps, first-use start-up under a harness-owned schedule",
          "Exploration: texts rendered from decoder-accepted encodings (all opcodes x prefixes x mode bytes) are fed to the assembler; result must re-disassemble to the same text, behave identically and be a fixed point.",
          "Text normalisation is the one the statement prescribes; byte equality is not required."),
- "C10": ("grammar-based program generation (Hypothesis) + layout reference model, per-statement standalone equivalence, determinism over assemble() call histories; coverage-guided phase: atheris/libFuzzer (sc_asm.py and asm.py instrumented) mutates the byte string behind the same programs() Hypothesis strategy, cases judged by the same evaluate_program",
+ "C10": ("grammar-based program generation (Hypothesis) + layout reference model, per-statement standalone equivalence, determinism over assemble() call histories; coverage-guided phase: atheris/libFuzzer (sc_asm.py and asm.py instrumented) mutates the byte string behind the same programs() Hypothesis strategy, cases judged by the same evaluate_program; Assembler configuration (SECTION_BASE_ADDRESSES / DEFAULT_SECTION overridden on a subclass, a grandchild or the instance) and raw white-space control characters inside defm strings at generated statement columns as generated dimensions of programs()",
          "Exploration: generated programs with labels (forward/backward), sections, .ORG, data directives and symbolic operands; sizes, addresses, label encodings and statelessness checked against a layout model.",
          "Instruction palette restricted to statement shapes that assemble standalone on the unchanged tree (exclusions counted)."),
  "C11": ("Hypothesis stateful testing of load/store sequences under generated memory configurations against a reference memory model (both machine models, plus the Rust CPU-facing bus); port-sized (1-3 byte) overlays with 16/24-bit accesses at every alignment around and enclosing them; Rust ROM image through both public loaders (rom window / system image) with generated image lengths",
@@ -57,7 +57,7 @@ CHECKS = {
  "C17": ("complete comparison of all 256 opcode rows and every duplicated constant/table across copies, with behavioural probes for private constants; view segments as registered by init() for generated parent-file lengths, and the sub-register layout after generated alias / whole-register write histories (register files of both languages and executed flag / POP F programs)",
          "Exhaustive over a finite domain: every duplicated table row/constant is compared across all of its copies (Python decoder, arch/view definitions, Python emulator, Rust core), and view segments are checked for disjointness and placement.",
          RUST_NOTE + " Normalising mapping between Python operand classes and Rust operand kinds is part of the trusted base."),
- "C18": ("complete enumeration of small task sets/partitions + Hypothesis beyond, against a reference discrete-event scheduler; async-vs-sync machine equality",
+ "C18": ("complete enumeration of small task sets/partitions + Hypothesis beyond, against a reference discrete-event scheduler; async-vs-sync machine equality; event payloads with collisions (equal DriverEvent::User ids from several tasks, also within one cycle; returned sequence compared value by value), budgets over the whole u64 range issued at clocks > 0 (saturating window), and a call-count progress watchdog that turns a stalled host loop into a no-progress verdict",
          "Exploration: scripted tasks interpreted inside the harness; resumption cycles, same-cycle order independence of budget splits, exactly-once event delivery; AsyncRuntimeRunner vs CoreRuntime.step on generated programs and slice sizes.",
          RUST_NOTE + " No progress obligation is asserted (the scheduler's own tests document idle budgets)."),
 }
